@@ -1002,3 +1002,85 @@ FUNCTIONS += [
                     (r'^os << "threw unknown exception\\n"$', 'os := os ++ [TTok.unknownException]')],
     ),
 ]
+
+# ----------------------------------------------------------------------------------------------
+# value printing (C18): print, printer<T>, the streamer<> specialisations.  String literals are kept verbatim (the
+# model's rendering is defined by them); `sep` is an ordinary mutable variable.
+
+PR_LIT = [(r'^("(?:\\.|[^"\\])*")$', r'PrTok.lit \1'), (r'^sep$', 'PrTok.lit sep')]
+PR_SINK = [(r'^os$', 'acts')]
+PR_STR = [(r'^("(?:\\.|[^"\\])*")$', r'\1')]
+PR_PRINT_ELEM = (r'^::trompeloeil::print\(os, element\)$', 'acts := acts ++ [PrTok.printSub element]')
+
+FUNCTIONS += [
+    dict(
+        name='print_top', cxx='trompeloeil::print(os, t)', file=MOCK, module='PrintTop',
+        header=r'\n\s*print\(\s*std::ostream& os,\s*T const &t\)\s*(?=\{)', nth=2,   # 0, 1: the two streamer<> primaries
+        lean_sig='(is_null : Bool) : List PrTok',
+        prologue=['let mut acts : List PrTok := []'], epilogue='return acts',
+        expr_rules=[(r'^is_null\(t\)$', 'is_null')],
+        decl_rules=[(r'^stream_sentry s = \{os\}$|^stream_sentry s\(os\)$', 'acts := acts ++ [PrTok.sentry]')],
+        stmt_rules=[(r'^PRINTER_T_PRINT\(os, t\)$', 'acts := acts ++ [PrTok.toPrinter]')],
+        pre=[(r'printer<T>::print\(os, t\)', 'PRINTER_T_PRINT(os, t)')],
+        stream_sinks=PR_SINK, tok_rules=PR_LIT,
+    ),
+    dict(
+        name='printer_default', cxx='printer<T>::print', file=MOCK, module='PrinterDefault',
+        header=r'template <typename T, typename = void>\s*struct printer\s*\{\s*static\s*void\s*print\(\s*std::ostream& os,\s*T const & t\)',
+        pre=[(r'streamer<T>::print\(os, t\)', 'STREAMER_T_PRINT(os, t)')],
+        lean_sig=': List PrTok',
+        prologue=['let mut acts : List PrTok := []'], epilogue='return acts',
+        stmt_rules=[(r'^STREAMER_T_PRINT\(os, t\)$', 'acts := acts ++ [PrTok.toStreamer]')],
+    ),
+    dict(
+        name='streamer_streamable', cxx='streamer<T, true, *>::print', file=MOCK, module='StreamerStreamable',
+        header=r'struct streamer\s*\{\s*static\s*void\s*print\(\s*std::ostream& os,\s*T const &t\)',
+        lean_sig=': List PrTok',
+        prologue=['let mut acts : List PrTok := []'], epilogue='return acts',
+        decl_rules=[(r'^stream_sentry s = \{os\}$|^stream_sentry s\(os\)$', 'acts := acts ++ [PrTok.sentry]')],
+        stmt_rules=[(r'^os << t$', 'acts := acts ++ [PrTok.streamValue]')],
+    ),
+    dict(
+        name='streamer_pair', cxx='streamer<std::pair<T, U>, false, false>::print', file=MOCK, module='StreamerPair',
+        header=r'struct streamer<std::pair<T, U>, false, false>\s*\{\s*static\s*void\s*print\(\s*std::ostream& os,\s*std::pair<T, U> const& t\)',
+        lean_sig=': List PrTok',
+        prologue=['let mut acts : List PrTok := []'], epilogue='return acts',
+        stmt_rules=[(r'^::trompeloeil::print\(os, t\.first\)$', 'acts := acts ++ [PrTok.printSub 0]'),
+                    (r'^::trompeloeil::print\(os, t\.second\)$', 'acts := acts ++ [PrTok.printSub 1]')],
+        stream_sinks=PR_SINK, tok_rules=PR_LIT,
+    ),
+    dict(
+        name='streamer_tuple', cxx='streamer<std::tuple<T...>, false, false>::print_tuple', file=MOCK, module='StreamerTuple',
+        header=r'print_tuple\(\s*std::ostream& os,\s*std::tuple<T\.\.\.> const& t,\s*detail::index_sequence<I\.\.\.>\)',
+        # the pack expansion `{((os << sep), print(os, get<I>(t)), (sep = ", "))...}` runs its three steps for I = 0 … N-1 in order
+        pre=[(r'std::initializer_list<const char\*> v\{\(\(os << sep\),\s*::trompeloeil::print\(os, std::get<I>\(t\)\),\s*\(sep = ", "\)\)\.\.\.\};',
+              'for (auto& element : elements) { os << sep; ::trompeloeil::print(os, element); sep = ", "; }')],
+        lean_sig='(elements : List Nat) : List PrTok',
+        prologue=['let mut acts : List PrTok := []'], epilogue='return acts',
+        vars={'elements': 'elements'}, local_types={'sep': 'String'},
+        stmt_ignore=[r'^ignore\(v\)$'],
+        expr_rules=PR_STR,
+        stmt_rules=[PR_PRINT_ELEM],
+        stream_sinks=PR_SINK, tok_rules=PR_LIT,
+    ),
+    dict(
+        name='streamer_collection', cxx='streamer<T, false, true>::print', file=MOCK, module='StreamerCollection',
+        header=r'struct streamer<T, false, true>\s*\{\s*static\s*void\s*print\(\s*std::ostream& os,\s*T const& t\)',
+        pre=[(r'using element_type = [^;]*;', ''),
+             (r'std::for_each\(std::begin\(t\), std::end\(t\),\s*\[&os, &sep\]\(element_type element\)\s*\{', 'for (auto& element : elements) {'),
+             (r'\}\s*\)\s*;', '}')],
+        lean_sig='(elements : List Nat) : List PrTok',
+        prologue=['let mut acts : List PrTok := []'], epilogue='return acts',
+        vars={'elements': 'elements'}, local_types={'sep': 'String'},
+        expr_rules=PR_STR,
+        stmt_rules=[PR_PRINT_ELEM],
+        stream_sinks=PR_SINK, tok_rules=PR_LIT,
+    ),
+    dict(
+        name='streamer_opaque', cxx='streamer<T, false, false>::print', file=MOCK, module='StreamerOpaque',
+        header=r'struct streamer<T, false, false>\s*\{\s*static\s*void\s*print\(\s*std::ostream& os,\s*T const &t\)',
+        lean_sig=': List PrTok',
+        prologue=['let mut acts : List PrTok := []'], epilogue='return acts',
+        stmt_rules=[(r'^hexdump\(&t, sizeof\(T\), os\)$', 'acts := acts ++ [PrTok.hexdump]')],
+    ),
+]
